@@ -179,6 +179,10 @@ def finish(ctx, level, coverage, assumptions, violations, engine=""):
     tmp = os.path.join(OUT, "evidence", ".%s.%d.tmp" % (ctx.prop, os.getpid()))
     json.dump(ev, open(tmp, "w"), indent=1, default=str)
     os.replace(tmp, os.path.join(OUT, "evidence", ctx.prop + ".json"))
+    if os.environ.get("VERIF_DUMP_KEYS"):   # development aid: every new violation key, one per line, in known-findings syntax
+        with open(os.environ["VERIF_DUMP_KEYS"], "a") as f:
+            for v in new:
+                f.write("known: property=%s %s :: %s\n" % (ctx.prop, v.key, v.what.replace("\n", " ")[:300]))
     for v, p in zip(new, paths):
         print("VIOLATION property=%s replay=%s" % (ctx.prop, p))
         print("  key: %s\n  what: %s" % (v.key, v.what))
